@@ -88,7 +88,9 @@ def gen_cases(tier, seed):
         if spell == "dirlink":
             pre.append({"p": "dlink", "k": "l", "target": "dst"})
         yield {"kind": "history", "driver": driver, "names": names, "ncls": ncls, "dircopy": dircopy, "bset": bset, "pre": pre, "steps": steps, "fs": "ext4",
-               "workers": r.choice([0, 1, 2, 4]), "spell": spell, "linkdest": linkdest}
+               "workers": r.choice([0, 1, 2, 4]), "spell": spell, "linkdest": linkdest,
+               # the backup rename itself may be refused (sticky directory and somebody else's file): nothing may be lost then either
+               "refuse_rename": r.random() < 0.08}
     # kill-point enumeration of one overwrite step per (driver, mode)
     for driver in ("parfile", "parblock"):
         for mode in ("numbered", "auto"):
@@ -216,7 +218,13 @@ def run_history(case, res):
             write_sources(root, st["files"])
             before = listing(root, ddir)
             else_before = listing(root, "elsewhere") if case.get("linkdest") else {}
-            run = core.run_plain(core.xcp_argv([a.replace("@ROOT@", root) for a in step_args(case, st["mode"], case["workers"])]), step_cwd(case, root))
+            if case.get("refuse_rename"):
+                run = core.run_supervised(sb, core.xcp_argv([a.replace("@ROOT@", root) for a in step_args(case, st["mode"], case["workers"])]),
+                                          {"log_mode": "none", "rules": [{"id": "r", "sys": sc, "under": root + "/", "action": "fault", "errno": 1} for sc in ("rename", "renameat", "renameat2")]},
+                                          cwd=step_cwd(case, root))
+                res["counters"]["steps-with-rename-refused"] = res["counters"].get("steps-with-rename-refused", 0) + 1
+            else:
+                run = core.run_plain(core.xcp_argv([a.replace("@ROOT@", root) for a in step_args(case, st["mode"], case["workers"])]), step_cwd(case, root))
             if run.verdict != "exited":
                 res["inconc"].append("run-" + run.verdict)
                 return
